@@ -1,6 +1,8 @@
 import GoUefi.Gen
 import GoUefi.Model.Guid
 import GoUefi.Lemmas.GenCodec
+import GoUefi.Lemmas.GenNullStr
+import GoUefi.Model.Utf16
 /-!
 # C17 (generated tie) — GUID equality of the current source is field-wise
 
@@ -65,6 +67,121 @@ theorem C17g_bytes_roundtrip (g : util.EFIGUID) (h : g.Data4.length = 8) :
 example : util.BytesToGUID (util.GUIDToBytes ⟨0xa5c059a1, 0x94e4, 0x4aa7, [1, 2, 3, 4, 5, 6, 7, 8]⟩) =
     ⟨0xa5c059a1, 0x94e4, 0x4aa7, [1, 2, 3, 4, 5, 6, 7, 8]⟩ := by decide +kernel
 
+/-! ### `util.ReadNullString` and `efivar.Efistring.Unmarshal` (translated; `util.ParseUtf16Var`, which runs the
+x/text decoder, is the field `util_ParseUtf16Var` of `efivar.Externals`)
+
+`ReadNullString` reads each code unit with `io.ReadFull(f, block)` (prelude `readFull`: min(2, available) bytes
+however the reader chunks them), so the reader model's "delivers what is there" costs nothing here.  Its `for {}`
+loop takes fuel; `len/2 + 1` turns are enough and more change nothing. -/
+
+/-- the translated `ReadNullString`, with any sufficient fuel, is the model's `readNullString`: the bytes returned
+    are its first component and the reader is left at its second -/
+theorem C17g_readNullString (bs : List UInt8) (fuel : Nat) (h : bs.length / 2 + 1 ≤ fuel) :
+    util.ReadNullString fuel bs = ((readNullString bs).2, (readNullString bs).1) := by
+  unfold util.ReadNullString
+  simp only []
+  rw [GenNullStr.loop_eq bs fuel [] h, List.nil_append]
+
+/-- fuel is irrelevant once there is enough of it -/
+theorem C17g_readNullString_fuel (bs : List UInt8) (f1 f2 : Nat) (h1 : bs.length / 2 + 1 ≤ f1)
+    (h2 : bs.length / 2 + 1 ≤ f2) : util.ReadNullString f1 bs = util.ReadNullString f2 bs := by
+  rw [C17g_readNullString bs f1 h1, C17g_readNullString bs f2 h2]
+
+/-- no aligned `00 00` code unit -/
+def alignedZeroFree : List UInt8 → Bool
+  | a :: b :: r => !(a == 0 && b == 0) && alignedZeroFree r
+  | _ => true
+
+/-- what is returned is the input up to and including the FIRST `00 00` at an even offset; the reader is left
+    right behind it -/
+theorem C17g_readNull_terminated : ∀ (p tail : List UInt8) (fuel : Nat), p.length % 2 = 0 → alignedZeroFree p = true →
+    (p ++ 0 :: 0 :: tail).length / 2 + 1 ≤ fuel →
+    util.ReadNullString fuel (p ++ 0 :: 0 :: tail) = (tail, p ++ [0, 0]) := by
+  intro p tail fuel hp hz hf
+  rw [C17g_readNullString _ fuel hf]
+  have key : ∀ (p : List UInt8), p.length % 2 = 0 → alignedZeroFree p = true →
+      readNullString (p ++ 0 :: 0 :: tail) = (p ++ [0, 0], tail) := by
+    intro p
+    induction p using alignedZeroFree.induct with
+    | case1 a b r ih =>
+      intro hl hz
+      have hl' : r.length % 2 = 0 := by simp only [List.length_cons] at hl; omega
+      rw [alignedZeroFree, Bool.and_eq_true, Bool.not_eq_true'] at hz
+      rw [List.cons_append, List.cons_append, readNullString, hz.1, ih hl' hz.2]
+      rfl
+    | case2 q hq =>
+      intro hl _
+      match q, hq, hl with
+      | [], _, _ => rfl
+      | [_], _, hl => simp at hl
+      | a :: b :: r, hq, _ => exact absurd rfl (hq a b r)
+  rw [key p hp hz]
+
+/-- without such a code unit everything is returned (a trailing odd byte as it is) and the reader is exhausted -/
+theorem C17g_readNull_unterminated (bs : List UInt8) (fuel : Nat) (hz : alignedZeroFree bs = true)
+    (hf : bs.length / 2 + 1 ≤ fuel) : util.ReadNullString fuel bs = ([], bs) := by
+  rw [C17g_readNullString _ fuel hf]
+  have key : ∀ (q : List UInt8), alignedZeroFree q = true → readNullString q = (q, []) := by
+    intro q
+    induction q using alignedZeroFree.induct with
+    | case1 a b r ih =>
+      intro hz
+      rw [alignedZeroFree, Bool.and_eq_true, Bool.not_eq_true'] at hz
+      rw [readNullString, hz.1, ih hz.2]
+      rfl
+    | case2 q hq =>
+      intro _
+      match q, hq with
+      | [], _ => rfl
+      | [_], _ => rfl
+      | a :: b :: r, hq => exact absurd rfl (hq a b r)
+  rw [key bs hz]
+
+/-- **`Efistring.Unmarshal`**: whatever `ParseUtf16Var` does, it is handed exactly `(readNullString bs).1`; its
+    error is returned as it is (the receiver keeps its value), otherwise its string becomes the value; the buffer
+    is left at `(readNullString bs).2` either way -/
+theorem C17g_efistring (X : efivar.Externals) (es : efivar.Efistring) (bs : List UInt8) (fuel : Nat)
+    (h : bs.length / 2 + 1 ≤ fuel) :
+    efivar.Efistring.Unmarshal fuel X es bs =
+      (if (X.util_ParseUtf16Var (readNullString bs).1).2.2.isSome
+        then (es, (readNullString bs).2, (X.util_ParseUtf16Var (readNullString bs).1).2.2)
+        else ((X.util_ParseUtf16Var (readNullString bs).1).2.1, (readNullString bs).2, none)) := by
+  unfold efivar.Efistring.Unmarshal
+  simp only []
+  rw [C17g_readNullString bs fuel h]
+
+/-- the external decoder agrees with the model's `parseUtf16` (which mirrors x/text; validated by the run-time
+    tie of C17, not proved) -/
+def ParseUtf16Agrees (p : List UInt8 → List UInt8 × String × GoErr) : Prop :=
+  ∀ b, match parseUtf16 b with
+    | .ok s => (p b).2.1 = String.ofList s ∧ (p b).2.2 = none
+    | _ => (p b).2.2.isSome = true
+
+/-- … and then the translated `Efistring.Unmarshal` computes the model's `efistringUnmarshal` -/
+theorem C17g_efistring_model (X : efivar.Externals) (hX : ParseUtf16Agrees X.util_ParseUtf16Var)
+    (es : efivar.Efistring) (bs : List UInt8) (fuel : Nat) (h : bs.length / 2 + 1 ≤ fuel) :
+    match efistringUnmarshal bs with
+    | .ok s => efivar.Efistring.Unmarshal fuel X es bs = (String.ofList s, (readNullString bs).2, none)
+    | _ => (efivar.Efistring.Unmarshal fuel X es bs).1 = es ∧ (efivar.Efistring.Unmarshal fuel X es bs).2.2.isSome = true := by
+  rw [C17g_efistring X es bs fuel h]
+  unfold efistringUnmarshal
+  have hb := hX (readNullString bs).1
+  cases hp : parseUtf16 (readNullString bs).1 with
+  | ok s =>
+    rw [hp] at hb
+    simp only [hb.2, Option.isSome_none, Bool.false_eq_true, if_false, hb.1]
+  | err => rw [hp] at hb; simp only [hb, if_true]; trivial
+  | panic => rw [hp] at hb; simp only [hb, if_true]; trivial
+  | exit => rw [hp] at hb; simp only [hb, if_true]; trivial
+
+example : util.ReadNullString 4 [0x41, 0, 0, 0, 9] = ([9], [0x41, 0, 0, 0]) := by decide +kernel
+example : util.ReadNullString 4 [0x41, 0, 0] = ([], [0x41, 0, 0]) := by decide +kernel   -- F32: no terminator made up
+example : util.ReadNullString 9 [0, 1, 1, 0, 0, 0, 5, 6] = ([5, 6], [0, 1, 1, 0, 0, 0]) := by decide +kernel
+-- too little fuel shows: the bound of the theorems is needed
+example : util.ReadNullString 1 [0x41, 0, 0x42, 0, 0, 0] = ([0x42, 0, 0, 0], []) := by decide +kernel
+example : (efivar.Efistring.Unmarshal 4 ⟨fun b => ([], "decoded", if b == [0x41, 0, 0, 0] then none else some "no")⟩ "old"
+    [0x41, 0, 0, 0, 9]) = ("decoded", [9], none) := by decide +kernel
+
 end GoUefi.C17
 
 #print axioms GoUefi.C17.C17g_cmp_fieldwise
@@ -72,3 +189,9 @@ end GoUefi.C17
 #print axioms GoUefi.C17.C17g_guidToBytes
 #print axioms GoUefi.C17.C17g_bytesToGuid
 #print axioms GoUefi.C17.C17g_bytes_roundtrip
+#print axioms GoUefi.C17.C17g_readNullString
+#print axioms GoUefi.C17.C17g_readNullString_fuel
+#print axioms GoUefi.C17.C17g_readNull_terminated
+#print axioms GoUefi.C17.C17g_readNull_unterminated
+#print axioms GoUefi.C17.C17g_efistring
+#print axioms GoUefi.C17.C17g_efistring_model
